@@ -7,7 +7,7 @@
 //! against a sequential string-register model (Wing–Gong/Lowe search). A cancelled client leaves
 //! its operation pending forever.
 
-use crate::model::linz::{apply, linearizable, HOp, KOp, KState};
+use crate::model::linz::{apply, linearizable_within, HOp, KOp, KState};
 use crate::model::wire::{parse_cmd, R};
 use crate::simkit::clock::SimClock;
 use crate::simkit::rt::{self, Sched};
@@ -292,8 +292,10 @@ impl Property for C02 {
         }
         let mut evals = 0;
         for (k, ops) in &per_key {
-            let mut ops = ops.clone();
-            if ops.len() > 24 { ops.truncate(24); }
+            let ops = ops.clone();
+            // a history is never cut short (a kept read may have observed a dropped write): one that is
+            // too long for the checker, or exhausts its budget, gets no verdict
+            if ops.len() > 60 { rep.probe("history_too_long_no_verdict"); continue; }
             // non-triviality: overlapping interval pair with a write
             let is_write = |o: &KOp| !matches!(o, KOp::Get | KOp::Strlen | KOp::Exists);
             for a in 0..ops.len() { for b in (a + 1)..ops.len() {
@@ -306,7 +308,9 @@ impl Property for C02 {
             } }
             evals += 1;
             // attribution: a GET-like reply must be a value some operation could have produced
-            if !linearizable(&KState::None, &ops) {
+            let verdict = linearizable_within(&KState::None, &ops, 300_000);
+            if verdict.is_none() { rep.probe("checker_budget_exhausted_no_verdict"); }
+            if verdict == Some(false) {
                 let mut hist: Vec<String> = ops.iter().map(|o| format!("[{}..{}] client{} {} -> {}", o.inv, o.ret.map(|r| r.to_string()).unwrap_or_else(|| "pending".into()), o.who, o.label, o.reply.as_ref().map(|r| r.show()).unwrap_or_else(|| "?".into()))).collect();
                 hist.sort();
                 let uses_pool = recs.iter().any(|r| matches!(r.op, Op::Get(_, 2) | Op::Set(_, _, 2)));
